@@ -123,8 +123,16 @@ func (b *c06Builder) build(s *c06Shape) Expr {
 		case "is":
 			e = &IsExpr{e, "number"}
 		case "mem", "idx", "call":
-			if !leaf {
-				b.bad = true // suffixes are tried on leaves only
+			if !leaf || e != c06Vals[b.spec.Val][b.leafi-1] {
+				// a suffix on an operator node, or on top of another decoration: it applies to the whole (parenthesised) operand
+				switch d.Kind {
+				case "mem":
+					e = Mem(e, "k")
+				case "idx":
+					e = Idx(e, N("0"))
+				case "call":
+					e = CallE(Mem(e, "floor"))
+				}
 				break
 			}
 			switch d.Kind {
@@ -239,7 +247,7 @@ func c06Plans(t fw.Tier) []c06Plan {
 func init() {
 	fw.Register(&fw.Prop{
 		ID: "C06",
-		Rule: "all binary-operator trees (15 binary + 5 assignment operators) up to n operators, 6 leaf valuations, with up to k decorations (prefix ! - +, redundant parentheses, `is`, .member / [index] / (call) suffixes) on any node; " +
+		Rule: "all binary-operator trees (15 binary + 5 assignment operators) up to n operators, 6 leaf valuations, with up to k decorations (prefix ! - +, redundant parentheses, `is`, .member / [index] / (call) suffixes -- on a leaf, on an operator node and on top of another decoration) on any node; " +
 			"each tree is rendered minimally and fully parenthesised; oracle: impl(min) == impl(full) (no model) and impl(full) == model(tree); a state is a (parent operator, child operator, side) triple; " +
 			"non-trivial = ordered operator pairs for which some valuation makes left- and right-grouping differ in the model",
 		Plan: func(t fw.Tier) int { return len(c06Ops) * len(c06Ops) },
@@ -296,10 +304,7 @@ func init() {
 								return
 							}
 							for node := minNode; node < nodes; node++ {
-								k0 := 0
-								if node == minNode {
-									k0 = minKind
-								}
+								k0 := 0 // decorations of one node are applied in list order and the order matters (-(x).k is not (-(x)).k): every order
 								for k := k0; k < len(c06DecoKinds); k++ {
 									nd := append(append([]c06Deco{}, decos...), c06Deco{c06DecoKinds[k], node})
 									if _, ok := c06Tree(c06Spec{N: pl.n, Shape: sh, Ops: base.Ops, Decos: nd}); !ok {
